@@ -53,10 +53,12 @@ theorem foldl_max_assoc (l : List Int) (a b : Int) : List.foldl max (max a b) l 
     congr 1
     omega
 
-theorem idBounds_model (bs be : Int) (l : List (Int × Int)) :
-    (match hullOf l with
-     | some (a, b) => (min bs a, max be b)
-     | none => (bs, be)) = (List.foldl min bs (l.map (·.1)), List.foldl max be (l.map (·.2))) := by
+theorem idQueryBounds_eq (bs be : Int) (kept : List Child) :
+    idQueryBounds bs be kept =
+      (List.foldl min bs (((partKinds kept).map fun c => (c.start, c.stop)).map (·.1)),
+       List.foldl max be (((partKinds kept).map fun c => (c.start, c.stop)).map (·.2))) := by
+  unfold idQueryBounds
+  generalize ((partKinds kept).map fun c => (c.start, c.stop)) = l
   cases l with
   | nil => rfl
   | cons x xs =>
@@ -67,8 +69,7 @@ theorem idBounds_model (bs be : Int) (l : List (Int × Int)) :
 
 theorem returnForIdQueries_bounds (bs be : Int) (keptM keptS : List Child) (hp : keptM.Perm keptS) :
     idQueryBounds bs be keptM = idBounds bs be keptS := by
-  unfold idQueryBounds
-  rw [idBounds_model]
+  rw [idQueryBounds_eq]
   unfold idBounds
   rw [hullOf_cons]
   simp only [List.map_map]
